@@ -195,9 +195,8 @@ class C06(Check):
                 ctx.case(key=('ctor', k, repr(v)), nontrivial=True, kind='record-constructor')
                 q = P(**{k: v})
                 if getattr(q, k) != v:
-                    known = 'C06-constructor-ignores-falsy' if not v else None
                     ctx.violate('Preferences(%s=%r) does not set the preference' % (k, v),
-                                {'history': ['Preferences(%s=%r)' % (k, v)]}, {'value': getattr(q, k)}, known=known)
+                                {'history': ['Preferences(%s=%r)' % (k, v)]}, {'value': getattr(q, k)})
         missing = [k for k in X.PREF_ORDER if k not in fresh]
         if missing:
             raise RuntimeError('preferences missing from a fresh record: %r' % missing)
@@ -778,8 +777,6 @@ class C06(Check):
         w = finding['witness']['data']
         fid = finding['id']
         try:
-            if fid == 'C06-constructor-ignores-falsy':
-                return im.cu.serialize.Preferences(keepComments=False).keepComments is not False
             sh = im.parse(w['src'])
             prefs = self.full(im, w['prefs'])
             res, _ = im.serialize(sh, prefs)
